@@ -88,3 +88,21 @@ Theorem C11_cuts_spec : forall c g prefix bpt input pretext o,
   Z.of_nat (length (out_frags o)) = Z.of_nat (length (in_frags input)) + out_cuts o.
 Proof. exact cuts_spec. Qed.
 Print Assumptions C11_cuts_spec.
+
+(* "The haplotig-removal count equals the number of haplotig scaffolds
+   written": the count reported in info.yaml is the number of scaffolds of the
+   assembly keyed "Haplotig"; for every completed run each of them has rows
+   (begins and ends with a fragment), so each is written; there is at most one
+   such assembly; without one the count is 0 *)
+From Tola Require Proofs.PipelineInv.
+Theorem C11_haplotig_count : forall c g prefix bpt input pretext o,
+  remap c g prefix bpt input pretext = Ok o ->
+  (forall sc, In sc (Proofs.PipelineInv.haplotig_scaffolds o) ->
+     sc_rows sc <> [] /\ (exists f t, sc_rows sc = RF f :: t) /\ (exists f t, sc_rows sc = t ++ [RF f]))
+  /\ Proofs.PipelineInv.haplotig_removals o
+     = zlen (filter Proofs.PipelineInv.has_rows (Proofs.PipelineInv.haplotig_scaffolds o))
+  /\ ((forall a, In a (out_asms o) -> oa_key a <> Some (s "Haplotig")) -> Proofs.PipelineInv.haplotig_removals o = 0)
+  /\ (forall a, In a (out_asms o) -> oa_key a = Some (s "Haplotig") ->
+        Proofs.PipelineInv.haplotig_scaffolds o = oa_scaffolds a).
+Proof. exact Proofs.PipelineInv.haplotig_count. Qed.
+Print Assumptions C11_haplotig_count.
